@@ -183,7 +183,7 @@ def natsum_repeat_stage(run, n):
     bm = S.boot_module()
     for _ in range(n):
         c = c08.gen_stage(run.rng)
-        if c["weights"] == "wrong-size":
+        if c["weights"].startswith("wrong-size"):
             continue
         cs = c["contests"]
         nn, B = len(cs), c["B"]
